@@ -107,6 +107,8 @@ def p_scalar(rng, metas, objs):
 
 
 def p_scalar_nz(rng, metas, objs):
+    if rng.random() < 0.05:
+        return {"s": 0}   # x / 0: an object with inf / nan coordinates, under numpy's default only a warning
     return {"s": rng.choice([2, -1, 0.5, 3, -2.5, 4])}
 
 
